@@ -46,19 +46,33 @@ func (e *Engine) sourceFns(filter func(fn *ssa.Function, file string) bool) []*s
 var genMu sync.Mutex
 
 func (e *Engine) verifyAll(fns []*ssa.Function, opts *VCOpts, post func(fr *Frame, q *Query)) []*FnResult {
-	var rs []*FnResult
-	for _, fn := range fns {
-		func() {
+	rs := make([]*FnResult, len(fns))
+	var wg sync.WaitGroup
+	sem := make(chan struct{}, 16)
+	for i, fn := range fns {
+		i, fn := i, fn
+		wg.Add(1)
+		go func() {
+			defer wg.Done()
+			sem <- struct{}{}
+			defer func() { <-sem }()
 			defer func() {
 				if r := recover(); r != nil {
-					rs = append(rs, &FnResult{Fn: fnKey(fn), Unsupported: []string{"generator panic: " + toString(r)}})
+					if genLocked {
+						genLocked = false
+						genMu.Unlock()
+					}
+					rs[i] = &FnResult{Fn: fnKey(fn), Unsupported: []string{"generator panic: " + toString(r)}}
 				}
 			}()
-			rs = append(rs, e.verifyFn(fn, opts, post))
+			rs[i] = e.verifyFn(fn, opts, post)
 		}()
 	}
+	wg.Wait()
 	return rs
 }
+
+var genLocked bool
 
 func toString(r any) string {
 	switch x := r.(type) {
